@@ -75,13 +75,37 @@ INST = []
 ON_UPPER, ON_LOWER, FIXED, ZERO, BASIC, UNDEFINED = range(6)
 
 
+SITE = {
+    "RowObjPS": [(r"m_addedcols = 0;\s*handleRowObjectives\(lp\);", "simplify() moves every row objective into an extra column before any step is recorded"),
+                 (r"new RowObjPS\(lp, i, lp\.nCols\(\), this->_tolerances\)\);\s*m_hist\.append\(ptr\);\s*lp\.addCol\(lp\.rowObj\(i\), -lp\.rhs\(i\), UnitVectorBase<R>\(i\), -lp\.lhs\(i\)\);", "RowObjPS: slack column = +e_i with bounds [-rhs,-lhs] (status flip)")],
+    "FreeConstraintPS": [(r"FreeConstraintPS\(const SPxLPBase<R>& lp, int _i, std::shared_ptr<Tolerances> tols\)[^{]*m_i\(_i\)\s*, m_old_i\(lp\.nRows\(\) - 1\)", "m_old_i is the last row index when the step is recorded (m_i <= m_old_i)")],
+    "EmptyConstraintPS": [(r"EmptyConstraintPS\(const SPxLPBase<R>& lp, int _i, std::shared_ptr<Tolerances> tols\)[^{]*m_i\(_i\)\s*, m_old_i\(lp\.nRows\(\) - 1\)", "m_old_i is the last row index")],
+    "RowSingletonPS": [(r"RowSingletonPS\(const SPxLPBase<R>& lp, int _i, int _j,[^{]*m_i\(_i\)\s*, m_old_i\(lp\.nRows\(\) - 1\)\s*, m_j\(_j\)", "m_old_i is the last row index")],
+    "ForceConstraintPS": [(r", m_objs\(lp\.rowVector\(_i\)\.size\(\)\)\s*, m_fixed\(fixCols\)\s*, m_cols\(lp\.rowVector\(_i\)\.size\(\)\)", "m_objs/m_cols have one entry per row nonzero"),
+                          (r"DataArray<bool> fixedCol\(row\.size\(\)\);\s*Array<R> lowers\(row\.size\(\)\);\s*Array<R> uppers\(row\.size\(\)\);", "m_fixed/m_oldLowers/m_oldUppers have one entry per row nonzero")],
+    "FixVariablePS": [(r", m_j\(_j\)\s*, m_old_j\(lp\.nCols\(\) - 1\)\s*, m_val\(val\)", "m_old_j is the last column index")],
+    "FixBoundsPS": [(r"new FixBoundsPS\(lp, j, val, this->_tolerances\)\);\s*std::shared_ptr<PostStep> ptr2\(new FixVariablePS\(lp, \*this, j, val, this->_tolerances\)\);", "FixBoundsPS is recorded together with the FixVariablePS of the same column"),
+                    (r"m_status = SPxSolverBase<R>::FIXED;\s*else if[^;]*\s*m_status = SPxSolverBase<R>::ON_LOWER;\s*else if[^;]*\s*m_status = SPxSolverBase<R>::ON_UPPER;\s*else if[^;]*\s*m_status = SPxSolverBase<R>::ZERO;\s*else\s*\{\s*throw", "constructor stores a non-basic status or throws")],
+    "FreeZeroObjVariablePS": [(r"SPxQuicksort\(col_idx_sorted\.mem\(\), col_idx_sorted\.size\(\), compare\);\s*std::shared_ptr<PostStep> ptr\(new FreeZeroObjVariablePS\(lp, j, unconstrained_below,\s*col_idx_sorted", "m_col is sorted by index"),
+                              (r"m_rows\[k\] = lp\.rowVector\(r\);\s*m_rowObj\.add\(k, lp\.rowObj\(r\)\);", "m_rows/m_rowObj (and m_lRhs) are parallel to m_col"),
+                              (r"m_addedcols = 0;\s*handleRowObjectives\(lp\);", "all row objectives are 0 when steps are recorded")],
+    "DoubletonEquationPS": [(r"lp\.changeBounds\(j, R\(-infinity\), R\(infinity\)\);\s*\+\+m_stat\[DOUBLETON_ROW\];\s*#endif\s*\}\s*// 6\. \(implied\) free column singleton\s*if\(lp\.lower\(j\) <= R\(-infinity\) && lp\.upper\(j\) >= R\(infinity\)\)", "the doubleton step falls through to the free-column-singleton step of the same column")],
+    "DuplicateRowsPS": [(r"m_scale\.add\(dupRows\.index\(k\), rowScale / scale\[dupRows\.index\(k\)\]\);\s*m_rowObj\.add\(dupRows\.index\(k\), lp\.rowObj\(dupRows\.index\(k\)\)\);", "m_scale and m_rowObj are parallel, indexed by the rows of the class"),
+                        (r", m_i_rowObj\(lp\.rowObj\(_i\)\)", "m_i_rowObj is the row objective of the kept row")],
+    "DuplicateColsPS": [(r"if\(l != m && !remCol\[j1\] && !remCol\[j2\]\)", "m_j != m_k")],
+    "AggregationPS": [(r"assert\(m_row\.size\(\) == 2\);", "the aggregated row is a doubleton")],
+}
+
+
 def inst(name, cls, names, mem, tier="quick", loops=None, mutants=None, min_obl=20, must=None, defines=None, extra=None):
     d = {"name": name, "function": "SPxMainSM<R>::%s::execute(x, y, s, r, cStatus, rStatus, isOptimal) const" % cls,
          "defines": dict({"INST_" + name.split("_")[0]: ""}, **(defines or {})),
          "harness": "h_" + name.split("_")[0], "enforce": "w_" + name.split("_")[0],
          "slices": [{"as": cls + ".inc", "file": "src/soplex/spxmainsm.hpp", "sig": sig(cls, names),
                      "must_contain": must or []}],
-         "conformance": COMMON_CONF + [members(cls, mem)],
+         "conformance": COMMON_CONF + [members(cls, mem)] + [
+             {"file": "src/soplex/spxmainsm.h" if re.search(rx, open("/repo/src/soplex/spxmainsm.h").read(), re.S) else "src/soplex/spxmainsm.hpp",
+              "regex": rx, "why": why} for rx, why in SITE.get(cls, [])],
          "min_obligations": min_obl, "tier": tier, "mutants": mutants or []}
     if loops:
         d["loops"] = loops
@@ -134,7 +158,9 @@ inst("FixBounds", "FixBoundsPS", ["", "", "", "", "cStatus", "", "isOptimal"],
 
 inst("TightenBounds", "TightenBoundsPS", ["x", "", "", "", "cStatus", "rStatus", "isOptimal"],
      [("int", "m_j"), (R_, "m_origupper"), (R_, "m_origlower")], min_obl=10,
-     mutants=[mut("swap_status", "TightenBoundsPS", "cStatus[m_j] = SPxSolverBase<R>::ON_LOWER;", "cStatus[m_j] = SPxSolverBase<R>::ZERO;")])
+     mutants=[mut("swap_status", "TightenBoundsPS", "cStatus[m_j] = SPxSolverBase<R>::ON_LOWER;", "cStatus[m_j] = SPxSolverBase<R>::ZERO;"),
+              mut("wrong_case", "TightenBoundsPS", "   case SPxSolverBase<R>::ON_UPPER:\n      if(LT(x[m_j], m_origupper, this->feastol()))", "   case SPxSolverBase<R>::ZERO:\n      if(LT(x[m_j], m_origupper, this->feastol()))"),
+              mut("drop_basic", "TightenBoundsPS", "      if(GT(x[m_j], m_origlower, this->feastol()))\n         cStatus[m_j] = SPxSolverBase<R>::BASIC;\n\n      break;", "      if(GT(x[m_j], m_origlower, this->feastol()))\n         cStatus[m_j] = SPxSolverBase<R>::UNDEFINED;\n\n      break;")])
 
 
 inst("RowSingleton", "RowSingletonPS", XYSR,
